@@ -3,6 +3,7 @@
 -/
 import PowHsm.Spec.C13
 import PowHsm.Generated.Enums
+import PowHsm.Proofs.Emits
 namespace PowHsm
 namespace Props.C13
 open Generated
@@ -37,6 +38,96 @@ theorem beVal_leading_zeros (k : Nat) (b : Bytes) :
 /-- the 36-byte big-endian difficulty round-trips for every value below 2^288 -/
 theorem difficulty_roundtrip (n : Nat) (h : n < 256 ^ 36) : Bytes.beVal (Bytes.be 36 n) = n :=
   Bytes.beVal_be_of_lt h
+
+open Dongle M Generated Tbl in
+/-- one hash query: when it succeeds, the device's answer echoed the selector and carried 32
+    bytes, and those bytes are what is returned; exactly one query message was sent -/
+theorem state_hash_exact (sel : Nat) (w : World) (v : Bytes) (h : (getStateHash sel w).val = .ok v) :
+    ∃ r rest, w.script = .data r :: rest ∧ (getStateHash sel w).w = { w with script := rest } ∧
+      (getStateHash sel w).evs = [.apdu [Dongle.CLA, u8 Command_GET_STATE, u8 GetStateOps_HASH, UInt8.ofNat sel]] ∧
+      v = r.drop 4 ∧ (r.getD 3 0).toNat = sel ∧ (r.drop 4).length = HASH_SIZE := by
+  unfold getStateHash at h ⊢
+  obtain ⟨r, e1, w1, hsend, h1, hev1, hw1⟩ := bind_ok_inv h
+  obtain ⟨rest, hscript, he1, hw⟩ := sendCommand_ok_inv hsend
+  obtain ⟨op, e2, w2, hidx, h2, hev2, hw2⟩ := bind_ok_inv h1
+  obtain ⟨_, he2, hw2'⟩ := idx_ok_inv hidx
+  by_cases hop : (op != u8 GetStateOps_HASH) = true
+  · rw [if_pos hop] at h2; simp [M.throw'] at h2
+  · simp only [hop, Bool.false_eq_true, if_false] at h2 hev2 hw2
+    obtain ⟨s, e3, w3, hidx3, h3, hev3, hw3⟩ := bind_ok_inv h2
+    obtain ⟨hs3, he3, hw3'⟩ := idx_ok_inv hidx3
+    by_cases hbad : (s.toNat != sel || (List.drop 4 r).length != HASH_SIZE) = true
+    · rw [if_pos hbad] at h3; simp [M.throw'] at h3
+    · simp only [hbad, Bool.false_eq_true, if_false, pure_apply] at h3 hev3 hw3
+      injection h3 with h3
+      simp only [Bool.or_eq_true, bne_iff_ne, ne_eq, not_or, Decidable.not_not] at hbad
+      refine ⟨r, rest, hscript, ?_, ?_, h3.symm, ?_, hbad.2⟩
+      · rw [hw1, hw2, hw3, hw3', hw2', hw]
+      · rw [hev1, hev2, hev3, he1, he2, he3]
+        simp
+      · have : r.getD 3 0 = s := by simp [List.getD, hs3]
+        rw [this]; exact hbad.1
+
+open Dongle M Generated Tbl in
+/-- **each named hash of the reply is exactly what the device answered to the query for that
+    name's selector**: when the hash queries succeed, the device was asked, in order, for the
+    selector of each name, each answer echoed that selector and carried 32 bytes, and the value
+    returned under the name is those 32 bytes — for every list of (name, selector) and every script -/
+theorem state_hashes_exact : ∀ (sels : List (String × Nat)) (w : World) (res : List (String × Bytes)),
+    (getStateHashes sels w).val = .ok res →
+    ∃ rs : List Bytes, w.script.take sels.length = rs.map Resp.data ∧ rs.length = sels.length ∧
+      apdus (getStateHashes sels w).evs =
+        sels.map (fun p => [Dongle.CLA, u8 Command_GET_STATE, u8 GetStateOps_HASH, UInt8.ofNat p.2]) ∧
+      res = List.zipWith (fun p r => (p.1, r.drop 4)) sels rs ∧
+      ∀ p r, (p, r) ∈ sels.zip rs → (r.getD 3 0).toNat = p.2 ∧ (r.drop 4).length = HASH_SIZE := by
+  intro sels
+  induction sels with
+  | nil =>
+    intro w res h
+    simp [getStateHashes] at h
+    subst h
+    exact ⟨[], by simp, rfl, by simp [getStateHashes, apdus], rfl, by simp⟩
+  | cons p ps ih =>
+    intro w res h
+    obtain ⟨key, sel⟩ := p
+    unfold getStateHashes at h ⊢
+    obtain ⟨v, e1, w1, hq, h', hev, _⟩ := bind_ok_inv h
+    obtain ⟨tl, e2, w2, hrec, h'', hev2, _⟩ := bind_ok_inv h'
+    simp only [pure_apply] at h''
+    injection h'' with h''
+    subst h''
+    obtain ⟨r, rest, hs, hw, hevs, hv, hsel, hlen⟩ := state_hash_exact sel w v (by rw [hq])
+    rw [hq] at hw hevs
+    simp only at hw hevs
+    subst hw hevs
+    obtain ⟨rs, h1, h2, h3, h4, h5⟩ := ih _ tl (by rw [hrec])
+    rw [hrec] at h3
+    simp only at h3
+    refine ⟨r :: rs, by simp [hs, h1], by simp [h2], ?_, by simp [h4, hv], ?_⟩
+    · rw [hev, hev2]
+      simp [apdus, h3]
+    · intro p' r' hm
+      simp only [List.zip_cons_cons, List.mem_cons] at hm
+      rcases hm with hm | hm
+      · injection hm with e1' e2'
+        subst e1' e2'
+        exact ⟨hsel, hlen⟩
+      · exact h5 p' r' hm
+
+open Dongle M Generated Tbl in
+/-- **the public key returned is the device's whole answer to the query for exactly the requested
+    path** -/
+theorem pubkey_verbatim (path : List Nat) (w : World) (k : Bytes) (h : (getPublicKey path w).val = .ok k) :
+    ∃ rest, w.script = .data k :: rest ∧
+      (getPublicKey path w).evs = [.apdu (Dongle.CLA :: u8 Command_GET_PUBLIC_KEY :: Bip32.toBinary path)] := by
+  unfold getPublicKey at h ⊢
+  cases hr : sendCommand (u8 Command_GET_PUBLIC_KEY) (Bip32.toBinary path) w with
+  | mk v e w1 =>
+    rw [hr] at h
+    simp only at h
+    subst h
+    obtain ⟨rest, h1, h2, _⟩ := sendCommand_ok_inv hr
+    exact ⟨rest, h1, h2⟩
 
 end Props.C13
 end PowHsm
